@@ -379,9 +379,32 @@ func (C06) evaluate(sc *C06Scenario) *sim.Outcome {
 	out.Nontrivial = host
 
 	for _, a := range []string{"scanroot", "cwd"} {
+		seenKey := map[string]bool{}
 		for _, ch := range diffSnap(before[a], snapshot(dirs[a])) {
 			ext := who(a, ch.Path)
 			what := ch.What
+			// SQLite side files: a database opened read-write gets a -shm file at once, and is
+			// checkpointed (database rewritten, -wal removed) whenever its last connection is closed -
+			// go-rpmdb leaves that to a goroutine of its own, so WHICH of the files has changed when
+			// Scan returns, and after which Extract call, varies from run to run.  One stable key per
+			// database, attributed to the extractors that required it.
+			if base, isSQLite := sqliteBase(ch.Path); isSQLite && a == "scanroot" {
+				var own []string
+				for _, e := range obs.Enabled {
+					if obs.Required[e][base] {
+						own = append(own, e)
+					}
+				}
+				if len(own) > 0 {
+					ext = strings.Join(own, "+")
+				}
+				key := fmt.Sprintf("%s-modified:%s:%s:sqlite-database-or-side-files-written", a, ext, stableName(base))
+				if !seenKey[key] {
+					seenKey[key] = true
+					out.Violate(a+"-modified", key, "%s/%s was %s during the scan (SQLite database %s opened read-write; required by %s): before=%q after=%q", a, ch.Path, ch.What, base, ext, ch.Before, ch.After)
+				}
+				continue
+			}
 			if what == "changed" {
 				switch bs, as := sizeOf(ch.Before), sizeOf(ch.After); {
 				case bs == "0":
@@ -509,4 +532,14 @@ func sizeOf(snap string) string {
 		return strings.Fields(snap[i+5:])[0]
 	}
 	return "-"
+}
+
+// sqliteBase maps an SQLite database or one of its side files to the database path.
+func sqliteBase(p string) (string, bool) {
+	for _, suf := range []string{"-wal", "-shm", "-journal"} {
+		if b := strings.TrimSuffix(p, suf); b != p && strings.HasSuffix(b, ".sqlite") {
+			return b, true
+		}
+	}
+	return p, strings.HasSuffix(p, ".sqlite")
 }
